@@ -15,8 +15,18 @@ OBLIGATIONS = [
     "KafVerif.C10.readFrame_total",
     "KafVerif.C10.readFrame_exact",
     "KafVerif.C10.readFrame_writeFrame",
+    "KafVerif.C10.parse_depends_only_on_frame",
 ]
-BUILDS = {"h": ("root", "./cmd/verif_c10", ["C10"])}
+BUILDS = {
+    "h": ("root", "./cmd/verif_c10", ["C10"]),
+    "hr": ("root", "./cmd/verif_c10", ["C10"], {"race": True, "name": "h_race"}),
+}
+TRUSTED = [
+    "no shared mutable state between parses: the model's parseHeader is a pure function of the frame bytes "
+    "(KafVerif.C10.parse_depends_only_on_frame); that the code has no hidden parser state is VALIDATED on every run by the "
+    "concurrent scenario (GOMAXPROCS goroutines, same API keys, versions on both sides of the flexible boundary, each result "
+    "compared with what was encoded) and by the same scenario under the Go race detector",
+]
 LEVEL_TEXT = ("Lean theorems over the model of byteReader/SkipTaggedFields/ParseRequestHeader/ReadFrame: totality "
               "(no panic) for every byte string, body-is-suffix, header round trip for every well-formed header and "
               "body, frame round trip; tied to the code by a differential run (real parser vs model) incl. an "
@@ -31,6 +41,8 @@ ASSUMPTIONS = [
     "the harness asserts it is a per-key threshold",
     "ReadFrame's make([]byte, length) for a lying length up to 2 GiB is resource use, not a crash as modelled",
     "request bodies are decoded by kmsg (trusted codec); the check compares re-encoded bodies for the 21 served keys",
+    "parses do not share mutable state (each connection goroutine parses independently) - not provable in the sequential model; "
+    "validated by the concurrent + race-detector run, which can only see interleavings that actually occur within its ~3 s",
 ]
 
 PRE = bytes.fromhex("0003000900000001ffff")  # Metadata v9 (flexible), corr 1, null client id
@@ -257,6 +269,52 @@ def check_stream(ck, binary, ops, tag):
     return bad is None
 
 
+def run_conc(ck, bins, seed=None, ms=None):
+    """Concurrent scenario, plain and under the race detector.  Returns True when clean."""
+    seed = seed if seed is not None else ck.rng.next() % (1 << 62)
+    ms = ms if ms is not None else (1500 if ck.quick() else 8000)
+    clean = True
+    for name in ("h", "hr"):
+        env = {"GORACE": "halt_on_error=0 exitcode=0"} if name == "hr" else None
+        rc, out, err = ck.run_bin(bins[name], args=["conc", str(seed), str(ms)], env=env, timeout=120 + ms // 1000)
+        line = (out.strip().split("\n") or [""])[-1]
+        op = "conc %d %d" % (seed, ms)
+        ck.count("conc:" + ("race-build" if name == "hr" else "plain") + ":" + " ".join(line.split()[:2]))
+        if line.startswith("conc ok"):
+            ck.cov["evaluations"] += int(line.split("parses=")[1].split()[0])
+            ck.case(("conc", name, seed), sample={"op": op + (" (race build)" if name == "hr" else ""), "impl": line})
+        elif line.startswith("conc mismatch"):
+            clean = False
+            w = line.split()
+            ck.violation("concurrent-parse-disturbed",
+                         "with other goroutines parsing the same API key at other versions, a valid %s v%s request did not parse back to what "
+                         "was encoded (%s); sequential parsing of the same frame is correct" % (kmsg_name(w[4]), w[5], w[2]),
+                         {"ops": [op, " ".join(w[3:])], "actual": line[:300], "expected": "rt ok for every frame, as in the sequential run"})
+        else:
+            clean = False
+            ck.violation("decoder-crash", "the concurrent parsing scenario died: %s" % (err[-300:] or line),
+                         {"ops": [op], "actual": "rc=%s %s" % (rc, line[:200])})
+        if name == "hr" and "WARNING: DATA RACE" in err:
+            blocks = err.split("WARNING: DATA RACE")[1:]
+            hit = [b for b in blocks if "protocol.ParseRequestHeader" in b or "protocol.ParseRequest(" in b or "protocol.ParseRequestBody" in b
+                   or "protocol.(*byteReader)" in b]
+            if hit:
+                clean = False
+                ck.violation("data-race-in-request-parsing",
+                             "the Go race detector reports a data race inside ParseRequestHeader/ParseRequest when connections parse concurrently",
+                             {"ops": [op], "actual": ("WARNING: DATA RACE" + hit[0])[:1500]})
+            else:
+                ck.notes.append("race detector reported a race outside pkg/protocol parsing (harness?): " + blocks[0][:300])
+    return clean
+
+
+def kmsg_name(k):
+    return {"0": "Produce", "1": "Fetch", "2": "ListOffsets", "3": "Metadata", "8": "OffsetCommit", "9": "OffsetFetch", "10": "FindCoordinator",
+            "11": "JoinGroup", "12": "Heartbeat", "13": "LeaveGroup", "14": "SyncGroup", "15": "DescribeGroups", "16": "ListGroups",
+            "18": "ApiVersions", "19": "CreateTopics", "20": "DeleteTopics", "23": "OffsetForLeaderEpoch", "32": "DescribeConfigs",
+            "33": "AlterConfigs", "37": "CreatePartitions", "42": "DeleteGroups"}.get(k, "key " + k)
+
+
 def run(ck):
     bins = ck.build_all()
     if bins is None:
@@ -271,6 +329,7 @@ def run(ck):
     ck.partial = ("parseHeader_encode is proved for the empty tagged-field section standard clients write; headers with non-empty "
                   "tag sections are covered by parseHeader_total/body_suffix and the differential run; request bodies are kmsg's codec")
     ok = check_stream(ck, bins["h"], ops, "main")
+    run_conc(ck, bins)
     if not ok and not ck.violations:
         # hunt: fresh generated streams, monitor only
         for i in range(5):
@@ -292,6 +351,14 @@ def replay(ck, path):
     if bins is None:
         return
     ops = rep["ops"]
+    if ops and ops[0].startswith("conc "):
+        # concurrency failures need the concurrent context: re-run the scenario with the recorded seed (3 attempts)
+        _, seed, ms = ops[0].split()
+        for attempt in range(3):
+            if not run_conc(ck, bins, int(seed) + attempt, max(int(ms), 3000)):
+                break
+        ck.cov["distinct_nontrivial"] = max(ck.cov["distinct_nontrivial"], 2)
+        return
     impl, fn, alive = run_ops(ck, bins["h"], ops, "replay")
     for op, o in zip(ops, impl):
         print("  %-60s -> %s" % (op[:60], o[:100]))
